@@ -209,7 +209,7 @@ def gen_case(rng, tier, ctx, i):
         rec = common.deep_chain(rng, rng.randint(34, 46))        # very deep nesting
         ctx.count("count:deep-models")
         return {"recipe": rec, "seed": rng.getrandbits(32), "flag_nodes": []}
-    o = common.varied_opts(rng, tier)
+    o = common.varied_opts(rng, tier, p_window=0.08)
     if rng.random() < 0.03:
         from . import c03
         sc = c03.special_case(rng, ctx)          # thresholds of large magnitude met/missed by one; sub-propositions without children
